@@ -668,7 +668,7 @@ class Builtins:
                 raise Unsupported("chain.from_iterable of a non-tuple")
             x = z3.Const("x!ch", Val)
             terms = [self._as_set_term(i, st) for i in its.items]
-            u = z3.Lambda([x], z3.Or(*[t[x] for t in terms])) if terms else EMPTY_SET
+            u = mk_lambda(x, z3.Or(*[t[x] for t in terms])) if terms else EMPTY_SET
             return k(VFunc("members", set=u), st)
         if name == "type" and len(args) == 1 and isinstance(args[0], VRef) and st.heap[args[0].oid].cls:
             return k(VFunc("class", name=st.heap[args[0].oid].cls), st)
@@ -795,13 +795,13 @@ class Builtins:
                 x = z3.Const("x!s", Val)
                 A, B = ha.payload, hb.payload
                 if isinstance(op, ast.Sub):
-                    t = z3.Lambda([x], z3.And(A[x], z3.Not(B[x])))
+                    t = mk_lambda(x, z3.And(A[x], z3.Not(B[x])))
                 elif isinstance(op, ast.BitAnd):
-                    t = z3.Lambda([x], z3.And(A[x], B[x]))
+                    t = mk_lambda(x, z3.And(A[x], B[x]))
                 elif isinstance(op, ast.BitOr):
-                    t = z3.Lambda([x], z3.Or(A[x], B[x]))
+                    t = mk_lambda(x, z3.Or(A[x], B[x]))
                 elif isinstance(op, ast.BitXor):
-                    t = z3.Lambda([x], z3.Xor(A[x], B[x]))
+                    t = mk_lambda(x, z3.Xor(A[x], B[x]))
                 else:
                     raise Unsupported("set operator")
                 r, st2 = self.alloc(st, HObj("set", t))
@@ -836,6 +836,8 @@ class Builtins:
         if name == "list":
             if not args:
                 return self.new_list(EMPTY_SEQ, st, k, pyitems=())
+            if isinstance(args[0], VRef) and st.heap[args[0].oid].meta.get("concrete_only"):
+                return self.new_list_from_values(list(st.heap[args[0].oid].meta["pyitems"]), st, k)
             return self.consume(args[0], st, lambda s, st2: self.new_list(s, st2, k))
         if name == "dict":
             if not args and not kwargs:
@@ -1212,7 +1214,7 @@ class Builtins:
     @staticmethod
     def overlay(m, o):
         x = z3.Const("x!ov", Val)
-        return z3.Lambda([x], ite(o[x] != Opt.none, o[x], m[x]))
+        return mk_lambda(x, ite(o[x] != Opt.none, o[x], m[x]))
 
     def map_update(self, m, ks, vs):
         """fresh map = m updated with pairs in order (last writer wins), pointwise."""
@@ -1338,13 +1340,13 @@ class Builtins:
                 return h.meta["member_set"]
             if h.kind in ("list", "tuple") and h.payload is not None:
                 x = z3.Const("x!t", Val)
-                return z3.Lambda([x], z3.Contains(h.payload, z3.Unit(x)))
+                return mk_lambda(x, z3.Contains(h.payload, z3.Unit(x)))
             if h.kind == "dict":
                 x = z3.Const("x!t", Val)
-                return z3.Lambda([x], h.payload[x] != Opt.none)
+                return mk_lambda(x, h.payload[x] != Opt.none)
         if isinstance(v, VFunc) and v.kind == "iterable":
             x = z3.Const("x!t", Val)
-            return z3.Lambda([x], z3.Contains(v.seq, z3.Unit(x)))
+            return mk_lambda(x, z3.Contains(v.seq, z3.Unit(x)))
         if isinstance(v, VFunc) and v.kind == "members":
             return v.set
         if isinstance(v, VTuple):
@@ -1359,7 +1361,7 @@ class Builtins:
         x = z3.Const("x!s", Val)
         for a in args:
             B = self._as_set_term(a, st)
-            A = z3.Lambda([x], f(A[x], B[x]))
+            A = mk_lambda(x, f(A[x], B[x]))
         return A
 
     def m_set_init(self, ref, args, kwargs, st, k):
@@ -1419,11 +1421,11 @@ class Builtins:
                     st3 = st3.with_env(st.env)
                     if kind == "ok":
                         Rimg = st3.heap[payload.oid].payload
-                        res += k(NONE, self.set_payload(ref, z3.Lambda([x], z3.Or(A[x], Rimg[x])), st3))
+                        res += k(NONE, self.set_payload(ref, mk_lambda(x, z3.Or(A[x], Rimg[x])), st3))
                     elif kind == "raise":
                         # items produced before the failing one were already added: some subset, order unspecified
                         P = self.cx.fresh("partial", SetV)
-                        res.append((kind, payload, self.set_payload(ref, z3.Lambda([x], z3.Or(A[x], P[x])), st3)))
+                        res.append((kind, payload, self.set_payload(ref, mk_lambda(x, z3.Or(A[x], P[x])), st3)))
                     else:
                         res.append((kind, payload, st3))
                 return res
